@@ -427,7 +427,7 @@ class Emitter:
             self.ind += 1
             self.rebinds(self.param_order(fn))
             self.body(fn["body"])
-            self.w("T.fall(_A)")
+            self.w("return T.value(_A, None)")
             self.ind -= 1
             self.w("except BaseException as _e:")
             self.ind += 1
